@@ -389,7 +389,10 @@ def random_type(rng, depth, allow_table=True, allow_handle=False, need_key=False
     k = rng.choice(["vec", "vec", "arr", "map", "umap", "pair", "tup", "opt", "res", "var", "struct", "struct", "wrap", "table", "lb"])
     sub = lambda **kw: random_type(rng, depth - 1, allow_table, allow_handle, **kw)
     if k == "vec":
-        return vec(sub())
+        e = sub()
+        while e.cpp == "bool":          # std::vector<bool> has no data(): not a supported shape
+            e = sub()
+        return vec(e)
     if k == "arr":
         return arr(sub(), rng.choice([1, 2, 3, 5]))
     if k == "map":
